@@ -38,6 +38,22 @@ def gen_cases(tier):
             cfgs = [(op, order, simp) for op in ("refine", "relax") for order in ORDERS for simp in (False, True)]
             cases.append({"id": i + 1, "S": S, "ctx": ctx, "elim": [x], "cfgs": rng.sample(cfgs, 8) if tier == "quick" else cfgs})
             continue
+        if i % 20 == 14:
+            # tactic 2 with the eliminated variables in ANOTHER order in the context than in the term / the list to eliminate (a chain through a
+            # second eliminated variable that the context mentions first; or two of them listed the other way round)
+            sg = rng.choice([1, -1])
+            k = rng.choice([2, 3])
+            if rng.random() < 0.5:
+                S = [({"x": 1, "e": sg}, rng.randint(0, 3))]
+                ctx = [({"f": sg}, rng.randint(2, 4)), ({"e": sg, "f": -sg * k}, 0), ({"e": -sg}, rng.randint(0, 2)), ({"f": -sg}, 0)]
+                elim = ["e", "f"]
+            else:
+                S = [({"x": 1, "e": sg, "f": sg * k}, rng.randint(0, 3))]
+                ctx = [({"f": sg}, rng.randint(1, 3)), ({"e": sg}, rng.randint(4, 6)), ({"e": -sg}, 1), ({"f": -sg}, 1)]
+                elim = ["e", "f"]
+            cfgs = [(op, order, simp) for op in ("refine", "relax") for order in ([2], [1, 2, 3, 4, 5], [2, 1], [5, 2]) for simp in (False, True)]
+            cases.append({"id": i + 1, "S": S, "ctx": ctx, "elim": elim, "cfgs": rng.sample(cfgs, 10) if tier == "quick" else cfgs})
+            continue
         if i % 20 == 9:
             # an eliminated variable that occurs ONLY in the context: the only bound on y runs through it (and on through a kept variable),
             # so a tactic may carry it into the term -- the result must still mention no eliminated variable
